@@ -130,9 +130,9 @@ def step (st : St) (t : List String) : St × String :=
     | none => (st, "bad-op")
     | some k => reply { st with s := load (killAllInsts st.s) k } "ok"
   | ["thread-result"] =>
-    match st.lastCall with
-    | some c => reply st "ok" s!" ret={showRet (st.s.getRet c)}"
-    | none => reply st "ok" " ret=none"
+    -- every host call record since the last reset, in call order
+    let rs := st.s.calls.map (fun e => showRet e.2)
+    reply st "ok" s!" ret={if rs.isEmpty then "none" else ",".intercalate rs}"
   | ["advance", n] =>
     match n.toNat? with
     | some k => reply { st with s := { st.s with clock := st.s.clock + k } } "ok"
